@@ -33,8 +33,9 @@
     /repo/src/qib/transform/compact_encoding.py on every run (gen/compact.py); the C13_tie_... theorems
     below are therefore re-proved against what the code says now. *)
 From Qib Require Import Compact.CompactBounded Base.Inst.
-From Coq Require Import QArith.
+From Coq Require Import QArith ZifyBool.
 From Run Require Import GenCompact.
+Ltac Zify.zify_post_hook ::= Z.to_euclidean_division_equations.
 Local Open Scope Z_scope.
 
 (* ------------------------------------------------------------------------------------------- *)
@@ -44,19 +45,25 @@ Ltac split_ifs :=
   repeat match goal with
          | |- context [if ?b then _ else _] => destruct b eqn:?
          end.
+(** shape-agnostic bridge: case-split every test of both sides; equal branches close by
+    reflexivity, arithmetically equal results and impossible combinations of tests by lia
+    (boolean tests through ZifyBool, // and % through the euclidean-division hook) *)
+Ltac bridge :=
+  split_ifs; cbn [negb] in *;
+  first [ reflexivity | discriminate | f_equal; lia | f_equal; f_equal; lia | exfalso; lia ].
 
 Theorem C13_tie_nsites : forall r c, gen_nsites r c = m_nsites r c.
-Proof. intros. unfold gen_nsites, m_nsites. f_equal. Qed.
+Proof. intros. unfold gen_nsites, m_nsites. first [reflexivity | lia | nia]. Qed.
 Print Assumptions C13_tie_nsites.
 
 Theorem C13_tie_index_to_coord : forall r c i, gen_index_to_coord r c i = m_index_to_coord r c i.
-Proof. intros. unfold gen_index_to_coord, m_index_to_coord. cbv zeta. split_ifs; reflexivity. Qed.
+Proof. intros. unfold gen_index_to_coord, m_index_to_coord, np_unravel2. cbv zeta. bridge. Qed.
 Print Assumptions C13_tie_index_to_coord.
 
 Theorem C13_tie_coord_to_index : forall r c p, gen_coord_to_index r c p = m_coord_to_index r c p.
 Proof.
   intros r c [a b|x y]; unfold gen_coord_to_index, m_coord_to_index, m_face_index; [reflexivity|].
-  split_ifs; reflexivity.
+  bridge.
 Qed.
 Print Assumptions C13_tie_coord_to_index.
 
@@ -64,7 +71,7 @@ Theorem C13_tie_edge_face : forall r c ix iy jx jy,
   gen_edge_face r c ix iy jx jy = m_edge_face r c ix iy jx jy.
 Proof.
   intros. unfold gen_edge_face, m_edge_face, m_edge_face_xy, is_nn. cbv zeta.
-  split_ifs; reflexivity.
+  bridge.
 Qed.
 Print Assumptions C13_tie_edge_face.
 
@@ -77,7 +84,7 @@ Theorem C13_tie_edge_desc : forall ii jj ff ix iy jx jy,
   gen_edge_desc ii jj ff ix iy jx jy = m_edge_desc ii jj ff ix iy jx jy.
 Proof.
   intros. unfold gen_edge_desc, m_edge_desc, is_nn. cbv zeta.
-  split_ifs; cbn [negb] in *; try reflexivity; try discriminate.
+  bridge.
 Qed.
 Print Assumptions C13_tie_edge_desc.
 
